@@ -273,7 +273,7 @@ def run_property(pid: str, tier: str, seed: int, jobs: int | None = None) -> int
         return 1
     if inconclusive:
         for s in inconclusive[:10]:
-            print(f"INCONCLUSIVE property={pid} reason={s}")
+            print(f"INCONCLUSIVE property={pid} reason=" + " | ".join(x for x in str(s).splitlines() if x.strip())[-900:])
         return 2
     return 0
 
